@@ -21,7 +21,7 @@ def resolve_prop(cmd, seed, rule, level_text, extra_dirs=(), assumptions=()):
 
 
 NOT_APPLICABLE = []
-HOOK_COMMITS = []
+HOOK_COMMITS = ["339701f"]
 
 
 PROPS = {
@@ -58,6 +58,29 @@ PROPS = {
         "optionally with an escape operation; must terminate (20 s bound) and equal the model; plus Parse(batch=false) over every pairing "
         "of revealed key and next commitments x both hash algorithms for update, recover and create",
         "Theorems: intake acceptance implies next commitment is not that of the revealed key and create/recover commitments differ (and the rule rejects nothing else); an applied operation never commits to the commitment it consumes nor to one consumed earlier in the chain; consumed commitments are pairwise distinct; resolution terminates. Cyclic histories and all key pairings through the real parser."),
+    "C16": {
+        "cmd": "c16", "seed": 116, "gentie": 0,
+        "coq_dirs": ["Writer", "Corr/Writer", "GenTie/Cutter", "Props/C16"],
+        "rule": "schedules of 1-7 ticks (monitor / batch timeout) driven through Writer.VerifStep with client Adds between ticks and "
+                "immediately before the k-th queue call of a tick (wrapper around the real MemQueue), CAS write failures at the k-th "
+                "write and anchor-write failures, real OperationHandler (expired operations via the time validator, repeated suffixes "
+                "are frequent), two protocol versions incl. version 0, MaxOperationCount 2-4; the recorded event trace is replayed on "
+                "the model and final queue + anchor log compared; oracles on the implementation: no version mixing, size <= max, "
+                "anchor count = references; non-trivial = at least one batch anchored; distinct by schedule",
+        "trusted_base": ["modelled, not verified: handler contract at the level of (included, deferred, expired) - the handler itself is "
+                         "C13; goroutines, tickers and data races are outside the model (labelled partial)"],
+        "assumptions": ["only the writer thread removes from the queue", "operations accepted by a running (not stopped) writer"],
+        "level_text": "Invariants proved over every event list of a step function whose events are the individual queue/handler/anchor calls "
+                      "of the writer thread and client Adds (all interleavings) with failure flags (all fault placements): conservation "
+                      "(permutation of accepted = queue + in flight + anchored + expired), exactly-once, batch shape (size, single "
+                      "version, one per suffix, short batch only when forced or at a version boundary), FIFO head/tail lemmas; the "
+                      "cutter arithmetic is re-translated from source and proved equal. The real Writer is stepped through a verif hook "
+                      "and its recorded call trace replayed on the model. Partial: true concurrency (races, tickers) is not modelled.",
+        "level_note": "Trusted: Coq kernel + vm_compute; harness (wrapper queue, failing CAS/anchor writer); go2v; hook batch.Writer.VerifStep "
+                      "(build tag verif). Handler abstracted by its accounting contract (verified separately in C13).",
+        "technique": "Coq invariant proof over all traces of an event-level step function + vm_compute replay of recorded call traces of "
+                     "the real Writer/Cutter/MemQueue/Handler + oracles on the anchor log",
+    },
     "C05": {
         "cmd": "c05", "seed": 5, "gentie": 0,
         "level_text": "Window function, default bound (anchorFrom + MaxOperationTimeDelta), inclusiveness, parameter independence and the out-of-window effect per operation type are Coq theorems for all (from, until, anchor, protocol); the window kernels of applier and parser are re-translated from the Go source on every run and proved equal to the model; the boundary sweep ties the rest of the model to the code.",
